@@ -264,9 +264,13 @@ Definition check_C16 (c : case) : nat := base_code c + bit (negb (c16_ok c)) 2.
 (* with an injected subprocess fault the lists must say so: an error entry for the layer's subprocess, verdict failed *)
 Definition c12_injected_ok (c : case) : bool :=
   i_failed c && existsb (fun nm => match nm with NSubprocess _ => true | _ => false end) (i_err c) && negb (i_aborted c).
+(* when the runner prints its "Tests with failures:" / "Tests with errors:" listings they name exactly the reported lists *)
+Definition listing_ok (c : case) : bool :=
+  match i_lfail c with Some l => names_perm l (i_fail c) | None => true end
+  && match i_lerr c with Some l => names_perm l (i_err c) | None => true end.
 Definition check_C12 (c : case) : nat :=
-  if i_injected c then bit (negb (c12_injected_ok c)) 2 else
-  base_code c + bit (negb (c12_ok c)) 2 + bit (c12_skip_finding c) 8 + bit (negb (c12_hyps c)) 16.
+  if i_injected c then bit (negb (c12_injected_ok c && listing_ok c)) 2 else
+  base_code c + bit (negb (c12_ok c && listing_ok c)) 2 + bit (c12_skip_finding c && listing_ok c) 8 + bit (negb (c12_hyps c)) 16.
 Definition check_C02 (c : case) : nat := base_code c + bit (negb (c02_ok c (i_injected c))) 2.
 Definition check_C02_injected (c : case) : nat := bit (negb (c02_ok c true)) 2.
 Definition check_C03 (c : case) : nat := base_code c + bit (negb (c03_ok c)) 2.
